@@ -10,6 +10,7 @@ import Driver.TrackerIO
 import Driver.ClientIO
 import Driver.SpecIO
 import Driver.HSetIO
+import Driver.LinIO
 /-!
 # Line-protocol oracle: one request per line on stdin, one reply per line on stdout.
 
@@ -169,7 +170,9 @@ def handleSt (st : DState) (words : List String) : DState × String :=
   | "ns" :: ws => let (n, r) := nsHandle st.ns ws; ({ st with ns := n }, r)
   | _ => match specHandle words with
     | some r => (st, r)
-    | none => (st, handle words)
+    | none => match linHandle words with
+      | some r => (st, r)
+      | none => (st, handle words)
 
 partial def loop (hin hout : IO.FS.Stream) (st : DState) : IO Unit := do
   let line ← hin.getLine
